@@ -124,7 +124,7 @@ func runC03(c *Ctx) {
 	{
 		fn := fnName(gu)
 		pos := P.Pos(gu.Pos())
-		nParam := ssa.Value(gu.Params[1])
+		nParam := ssa.Value(param(gu, 1))
 		for _, atc := range []bool{false, true} {
 			for _, veq := range []bool{false, true} {
 				for _, ed := range []bool{false, true} {
@@ -250,7 +250,7 @@ func runC03(c *Ctx) {
 			nil1 := false
 			for j := range p.Trace {
 				ev := &p.Trace[j]
-				if ev.Base.V != ssa.Value(GU.Params[1]) {
+				if ev.Base.V != ssa.Value(param(GU, 1)) {
 					continue
 				}
 				if isNilConst(ev.Args[1].V) {
@@ -515,7 +515,7 @@ func resetRemoveAnnounce(c *Ctx, rule string) {
 			if dn >= 0 {
 				ev := &p.Trace[dn]
 				s, isS := constString(ev.Args[1].V)
-				okArgs = ev.Args[0].V == ssa.Value(remove.Params[1]) && isS && s == ""
+				okArgs = ev.Args[0].V == ssa.Value(param(remove, 1)) && isS && s == ""
 			}
 			ok := li >= 0 && li < de && de < cl && cl < ui && okArgs && de >= 0
 			c.Check(ok, rule, fnName(remove), "Remove forgets the target, then announces the whole-target delete, under the write lock", P.Pos(remove.Pos()), fmt.Sprintf("lock@%d delete@%d announce@%d unlock@%d args-ok=%v; path: %s", li, de, cl, ui, okArgs, p.String()))
@@ -715,7 +715,7 @@ func gnmiDispatch(c *Ctx, a *cacheAnchors, rule string) {
 	P := c.P
 	GU := a.GnmiUpdate
 	c.Rule(rule, "Target.GnmiUpdate, non-atomic notification with u updates and d deletes, (u,d) in {0,1,2}x{0,1,2}: every returning path calls gnmiUpdate exactly u times and gnmiRemove exactly d times (range loops folded by the known lengths); atomic with u >= 1 updates and no delete: exactly one gnmiUpdate call with the caller's notification")
-	nP := ssa.Value(GU.Params[1])
+	nP := ssa.Value(param(GU, 1))
 	fUpd := P.Field("proto/gnmi", "Notification", "Update")
 	fDel := P.Field("proto/gnmi", "Notification", "Delete")
 	fAt := P.Field("proto/gnmi", "Notification", "Atomic")
